@@ -377,6 +377,9 @@ def check_wire(lx: LayoutExtractor, rep, prefix='C02', only=None, rule_map=None)
                         first = enc[i]
                     if enc[i][2] > 1 and enc[i][1] != 's' and not enc[i][3]:
                         p2.append('%s: multi-byte field packed without big-endian byte order' % fname)
+                    if enc[i][1] in 'bhilq':
+                        p2.append('%s: packed with the signed code %r: the fields of PS3.8 / PS3.7 Annex D are unsigned binary numbers '
+                                  '(values from 2^%d up decode as negative numbers and cannot be encoded)' % (fname, enc[i][1], 8 * enc[i][2] - 1))
                     got += enc[i][2]
                     i += 1
                     if binding != OR.R:
